@@ -1179,6 +1179,10 @@ class Exec:
     def apply(self, f, args, kwargs):
         if isinstance(f, VSet) and hasattr(f, "nx_view"):
             return self.lib.call_view(self, f, args, kwargs)
+        if isinstance(f, VObj) and isinstance(f.cls, ClassInfo):
+            m = self.repo.find_method(f.cls, "__call__")
+            if m is not None:
+                return self.call_y0(m, args, kwargs, self_val=f)
         if not isinstance(f, VFunc):
             raise OutOfSubset(f"call of {type(f).__name__}")
         if f.kind == "y0":
